@@ -1077,7 +1077,8 @@ impl MutableArchive {
         let name_b = hash_string(filename, hash_type::NAME_B);
 
         let table_size = hash_table.size() as u32;
-        let mut index = table_offset & (table_size - 1);
+        let start_index = table_offset & (table_size - 1);
+        let mut index = start_index;
 
         // Linear probing to find empty or deleted slot
         loop {
@@ -1099,6 +1100,13 @@ impl MutableArchive {
 
             // Move to next slot
             index = (index + 1) & (table_size - 1);
+
+            // Wrapped around without finding a free slot: the table is full
+            if index == start_index {
+                return Err(Error::hash_table(format!(
+                    "Hash table full ({table_size} entries), cannot add '{filename}'"
+                )));
+            }
         }
 
         Ok(())
